@@ -3,6 +3,8 @@ import PilotaModel.Lemmas.OpsRun
 /-
   Compact protocol: the emitted decoder run on the compact encoding of a wire value equals the
   value-level shadow `projTy`, from every reader state without a pending bool, and restores that state.
+  The shadow is the one used for the binary family: nothing in the emitted decoders depends on the
+  protocol beyond the reader record `Rd`.
 -/
 namespace Pilota.TGen
 open Pilota Pilota.Thrift Pilota.Thrift.Compact
@@ -31,5 +33,525 @@ theorem cskip_bool_pending (b : Bool) (cr : CR) (hp : cr.pendingBool = some b) (
   rw [this, Skip.rdSkip]
   simp [skipDepth, Skip.compactPrims, Skip.compactLeaf, Skip.dropS, readBool, hp, mapOut]
   all_goals (intro h; cases h)
+
+theorem cfieldBegin_nil (cr : CR) (last : Int) (rest : Bytes) :
+    cmpRd.fieldBegin (cr, encFields last .nil ++ rest) = .ok ((.stop, 0), (cr, rest)) := by
+  simp [cmpRd, encFields, readFieldBegin_stop, mapOut]
+
+/-- a bool field: the header carries the value, which lands in the pending slot -/
+theorem cfieldBegin_bool (cr : CR) (id : Int) (b : Bool) (r : TFields) (hid : inS 2 id) (rest : Bytes) :
+    cmpRd.fieldBegin (cr, encFields cr.last (.cons id (.bool b) r) ++ rest) =
+      .ok ((.bool, id), ({ cr with last := id, pendingBool := some b }, encFields id r ++ rest)) := by
+  simp only [cmpRd, encFields, List.append_assoc]
+  rw [readFieldBegin_hdr cr (boolByte b) .bool (by cases b <;> simp [boolByte]) (by cases b <;> simp [boolByte, ttypeOfCompact]) id hid]
+  cases b <;> simp [mapOut, boolByte]
+
+/-- any other field: header, then the value's encoding -/
+theorem cfieldBegin_val (cr : CR) (id : Int) (v : TVal) (r : TFields) (hid : inS 2 id) (hnb : v.ttype ≠ .bool) (rest : Bytes) :
+    cmpRd.fieldBegin (cr, encFields cr.last (.cons id v r) ++ rest) =
+      .ok ((v.ttype, id), ({ cr with last := id }, enc v ++ (encFields id r ++ rest))) := by
+  obtain ⟨ct, h1, h2, h3, h4, h5⟩ := compactOf_value v.ttype (Binary.val_ttype_isValue v)
+  have hne := h5 hnb
+  have henc : encFields cr.last (.cons id v r) = fieldHeader cr.last ct id ++ (enc v ++ encFields id r) := by
+    cases v <;> simp [TVal.ttype] at hnb <;> simp [encFields, TVal.ttype] at h1 ⊢ <;> simp [h1]
+  rw [henc]
+  simp only [cmpRd, List.append_assoc]
+  rw [readFieldBegin_hdr cr ct v.ttype ⟨h2, h3⟩ h4 id hid]
+  simp [mapOut, hne.1, hne.2]
+
+theorem cbase_dec (v : TVal) (ty : STy) (hw : v.wt = true) (f : Nat) (cr : CR) (hp : cr.pendingBool = none) (rest : Bytes)
+    (hb : (match ty, v with
+      | .bool, .bool _ | .i8, .i8 _ | .i16, .i16 _ | .i32, .i32 _ | .i64, .i64 _ | .double, .dbl _
+      | .string, .bin _ | .binary, .bin _ | .uuid, .uuid _ => true
+      | _, _ => false) = true) :
+    decTy cmpRd d (f + 1) ty (cr, enc v ++ rest) = .ok (v, (cr, rest)) := by
+  cases v <;> cases ty <;> simp at hb <;> simp [TVal.wt] at hw
+  case bool.bool b =>
+    rw [decTy]
+    cases b <;> simp [cmpRd, enc, readBool, hp, boolByte, readByte, Binary.readByte, mapOut]
+  case i8.i8 n => rw [decTy]; simp [cmpRd, enc, Binary.readI_i .be 1 (by decide) n hw, mapOut]
+  case i16.i16 n => rw [decTy]; simp [cmpRd, enc, readVarS_zigzag 2 (Or.inl rfl) n hw, mapOut]
+  case i32.i32 n => rw [decTy]; simp [cmpRd, enc, readVarS_zigzag 4 (Or.inr (Or.inl rfl)) n hw, mapOut]
+  case i64.i64 n => rw [decTy]; simp [cmpRd, enc, readVarS_zigzag 8 (Or.inr (Or.inr rfl)) n hw, mapOut]
+  case dbl.double b =>
+    have : b % 256 ^ 8 = b := Nat.mod_eq_of_lt (by have : (256:Nat)^8 = 2^64 := by decide
+                                                   omega)
+    rw [decTy]; simp [cmpRd, enc, Binary.readU_enc, this, mapOut]
+  case bin.string bs => rw [decTy]; simp [cmpRd, enc, List.append_assoc, readBytes_enc bs rest hw, mapOut]
+  case bin.binary bs => rw [decTy]; simp [cmpRd, enc, List.append_assoc, readBytes_enc bs rest hw, mapOut]
+  case uuid.uuid bs => rw [decTy]; simp [cmpRd, enc, Binary.takeN_append' 16 bs rest hw, mapOut]
+
+end Pilota.TGen
+
+namespace Pilota.TGen
+open Pilota Pilota.Thrift Pilota.Thrift.Compact
+
+variable (d : Doc)
+
+/-- the correspondence statements at fuel `f` (compact): value position … -/
+def CorrTC (f : Nat) : Prop := ∀ ty w cr rest o, w.wt = true → cr.pendingBool = none → projTy d dpC f ty w = some o →
+  decTy cmpRd d f ty (cr, enc w ++ rest) = withRestC cr rest o
+/-- … and a bool carried in the field header (pending slot) -/
+def CorrBC (f : Nat) : Prop := ∀ ty b (cr : CR) rest o, cr.pendingBool = some b → projTy d dpC f ty (.bool b) = some o →
+  decTy cmpRd d f ty (cr, rest) = withRestC { cr with pendingBool := none } rest o
+def CorrNC (f : Nat) : Prop := ∀ el xs et acc cr rest o, xs.wt et = true → cr.pendingBool = none → projN d dpC f el xs acc = some o →
+  decN cmpRd d f el xs.length acc (cr, encVals xs ++ rest) = withRestC cr rest o
+def CorrPC (f : Nat) : Prop := ∀ k v kvs kt vt acc cr rest o, kvs.wt kt vt = true → cr.pendingBool = none → projPairs d dpC f k v kvs acc = some o →
+  decPairs cmpRd d f k v kvs.length acc (cr, encPairs kvs ++ rest) = withRestC cr rest o
+def CorrFC (f : Nat) : Prop := ∀ fs slots wfs (cr : CR) rest o, wfs.wt = true → cr.pendingBool = none → projFields d dpC f fs slots wfs = some o →
+  decFields cmpRd d f fs slots (cr, encFields cr.last wfs ++ rest) = withRestC { cr with last := lastOf cr.last wfs } rest o
+def CorrUC (f : Nat) : Prop := ∀ vs ret wfs (cr : CR) rest o, wfs.wt = true → cr.pendingBool = none → projUnion d dpC f vs ret wfs = some o →
+  decUnion cmpRd d f vs ret (cr, encFields cr.last wfs ++ rest) = withRestC { cr with last := lastOf cr.last wfs } rest o
+
+theorem corrNC_succ (f : Nat) (hT : CorrTC d f) (hN : CorrNC d f) : CorrNC d (f + 1) := by
+  intro el xs et acc cr rest o hw hp h
+  cases xs with
+  | nil =>
+    simp only [projN] at h; cases h
+    simp [decN, TVals.length, encVals, withRestC, mapOut]
+  | cons x xs =>
+    simp [TVals.wt] at hw
+    obtain ⟨⟨_, hx⟩, hxs⟩ := hw
+    simp only [projN] at h
+    simp only [TVals.length, encVals, List.append_assoc, decN]
+    cases hpx : projTy d dpC f el x with
+    | none => simp [hpx] at h
+    | some ox =>
+      rw [hT el x cr _ ox hx hp hpx]
+      cases ox with
+      | ok v =>
+        simp only [hpx] at h
+        simp only [withRestC, mapOut]
+        exact hN el xs et _ cr rest o hxs hp h
+      | err k => simp [hpx] at h; subst h; rfl
+      | panic m => simp [hpx] at h; subst h; rfl
+      | fuel => simp [hpx] at h; subst h; rfl
+
+theorem corrPC_succ (f : Nat) (hT : CorrTC d f) (hP : CorrPC d f) : CorrPC d (f + 1) := by
+  intro k v kvs kt vt acc cr rest o hw hp h
+  cases kvs with
+  | nil =>
+    simp only [projPairs] at h; cases h
+    simp [decPairs, TPairs.length, encPairs, withRestC, mapOut]
+  | cons a b r =>
+    simp [TPairs.wt] at hw
+    obtain ⟨⟨⟨⟨_, _⟩, ha⟩, hb⟩, hr⟩ := hw
+    simp only [projPairs] at h
+    simp only [TPairs.length, encPairs, List.append_assoc, decPairs]
+    cases hpa : projTy d dpC f k a with
+    | none => simp [hpa] at h
+    | some oa =>
+      rw [hT k a cr _ oa ha hp hpa]
+      cases oa with
+      | ok ka =>
+        simp only [hpa] at h
+        simp only [withRestC, mapOut]
+        cases hpb : projTy d dpC f v b with
+        | none => simp [hpb] at h
+        | some ob =>
+          rw [hT v b cr _ ob hb hp hpb]
+          cases ob with
+          | ok vb =>
+            simp only [hpb] at h
+            simp only [withRestC, mapOut]
+            exact hP k v r kt vt _ cr rest o hr hp h
+          | err x => simp [hpb] at h; subst h; rfl
+          | panic m => simp [hpb] at h; subst h; rfl
+          | fuel => simp [hpb] at h; subst h; rfl
+      | err x => simp [hpa] at h; subst h; rfl
+      | panic m => simp [hpa] at h; subst h; rfl
+      | fuel => simp [hpa] at h; subst h; rfl
+
+end Pilota.TGen
+
+namespace Pilota.TGen
+open Pilota Pilota.Thrift Pilota.Thrift.Compact
+
+variable (d : Doc)
+
+theorem cr_last_self (cr : CR) : ({ cr with last := cr.last } : CR) = cr := by cases cr; rfl
+
+theorem cr_after_bool (cr : CR) (hp : cr.pendingBool = none) (id : Int) (b : Bool) :
+    ({ ({ cr with last := id, pendingBool := some b } : CR) with pendingBool := none } : CR) = { cr with last := id } := by
+  cases cr; simp at hp; subst hp; rfl
+
+theorem admitsC (n : Nat) (h : admitsB dpC n = true) : n ≤ skipDepth := by
+  simpa [admitsB, dpC] using h
+
+theorem bool_of_ttype (v : TVal) (h : v.ttype = .bool) : ∃ b, v = .bool b := by
+  cases v <;> simp [TVal.ttype] at h; exact ⟨_, rfl⟩
+
+theorem corrFC_succ (f : Nat) (hT : CorrTC d f) (hB : CorrBC d f) (hF : CorrFC d f) : CorrFC d (f + 1) := by
+  intro fs slots wfs cr rest o hw hp h
+  cases wfs with
+  | nil =>
+    simp only [projFields] at h; cases h
+    rw [decFields, cfieldBegin_nil]; cases cr; simp [withRestC, mapOut, lastOf]
+  | cons id v r =>
+    simp [TFields.wt] at hw
+    obtain ⟨⟨hid, hv⟩, hr⟩ := hw
+    simp only [projFields, hid, not_true_eq_false, if_false] at h
+    have hns : v.ttype ≠ .stop := Binary.ttype_isValue_ne_stop _ (Binary.val_ttype_isValue v)
+    by_cases hbool : v.ttype = .bool
+    · obtain ⟨b, rfl⟩ := bool_of_ttype v hbool
+      rw [decFields, cfieldBegin_bool cr id b r hid]
+      simp only [TVal.ttype] at h hns ⊢
+      simp only [hns, if_false]
+      have hp' : ({ cr with last := id } : CR).pendingBool = none := hp
+      cases hfind : fs.find? (fun fl => fl.id == id && d.ttype fl.ty == TType.bool) with
+      | some fl =>
+        simp only [hfind] at h ⊢
+        cases hpv : projTy d dpC f fl.ty (.bool b) with
+        | none => simp [hpv] at h
+        | some ov =>
+          rw [hB fl.ty b _ _ ov rfl hpv]
+          cases ov with
+          | ok pv =>
+            simp only [hpv] at h
+            simp only [withRestC, mapOut, cr_after_bool cr hp id b]
+            have := hF fs _ r { cr with last := id } rest o hr hp' h
+            simpa [lastOf, withRestC, mapOut] using this
+          | err x => simp [hpv] at h; subst h; rfl
+          | panic m => simp [hpv] at h; subst h; rfl
+          | fuel => simp [hpv] at h; subst h; rfl
+      | none =>
+        simp only [hfind] at h ⊢
+        by_cases hadm : admitsB dpC (TVal.bool b).need = true
+        · simp only [hadm, if_true] at h
+          rw [cskip_bool_pending b _ rfl]
+          simp only [cr_after_bool cr hp id b]
+          have := hF fs slots r { cr with last := id } rest o hr hp' h
+          simpa [lastOf] using this
+        · simp [hadm] at h
+    · rw [decFields, cfieldBegin_val cr id v r hid hbool]
+      simp only [hns, if_false]
+      have hp' : ({ cr with last := id } : CR).pendingBool = none := hp
+      cases hfind : fs.find? (fun fl => fl.id == id && d.ttype fl.ty == v.ttype) with
+      | some fl =>
+        simp only [hfind] at h ⊢
+        cases hpv : projTy d dpC f fl.ty v with
+        | none => simp [hpv] at h
+        | some ov =>
+          rw [hT fl.ty v _ _ ov hv hp' hpv]
+          cases ov with
+          | ok pv =>
+            simp only [hpv] at h
+            simp only [withRestC, mapOut]
+            have := hF fs _ r { cr with last := id } rest o hr hp' h
+            simpa [lastOf, withRestC, mapOut] using this
+          | err x => simp [hpv] at h; subst h; rfl
+          | panic m => simp [hpv] at h; subst h; rfl
+          | fuel => simp [hpv] at h; subst h; rfl
+      | none =>
+        simp only [hfind] at h ⊢
+        by_cases hadm : admitsB dpC v.need = true
+        · simp only [hadm, if_true] at h
+          rw [cskip_enc v hv (admitsC _ hadm) _ hp']
+          have := hF fs slots r { cr with last := id } rest o hr hp' h
+          simpa [lastOf] using this
+        · simp [hadm] at h
+
+end Pilota.TGen
+
+namespace Pilota.TGen
+open Pilota Pilota.Thrift Pilota.Thrift.Compact
+
+variable (d : Doc)
+
+theorem corrUC_succ (f : Nat) (hT : CorrTC d f) (hB : CorrBC d f) (hU : CorrUC d f) : CorrUC d (f + 1) := by
+  intro vs ret wfs cr rest o hw hp h
+  cases wfs with
+  | nil =>
+    simp only [projUnion] at h; cases h
+    rw [decUnion, cfieldBegin_nil]; cases cr; simp [withRestC, mapOut, lastOf]
+  | cons id v r =>
+    simp [TFields.wt] at hw
+    obtain ⟨⟨hid, hv⟩, hr⟩ := hw
+    simp only [projUnion, hid, not_true_eq_false, if_false] at h
+    have hns : v.ttype ≠ .stop := Binary.ttype_isValue_ne_stop _ (Binary.val_ttype_isValue v)
+    have hp' : ({ cr with last := id } : CR).pendingBool = none := hp
+    by_cases hbool : v.ttype = .bool
+    · obtain ⟨b, rfl⟩ := bool_of_ttype v hbool
+      rw [decUnion, cfieldBegin_bool cr id b r hid]
+      simp only [TVal.ttype] at h hns ⊢
+      simp only [hns, if_false]
+      cases hfind : vs.find? (fun x => x.1 == id && !(x.2 == .void)) with
+      | some p =>
+        obtain ⟨pid, ty⟩ := p
+        simp only [hfind] at h ⊢
+        by_cases hret : ret.isSome = true
+        · simp only [hret, if_true] at h ⊢
+          cases h; rfl
+        · simp only [hret, if_false] at h ⊢
+          by_cases htt : (d.ttype ty != TType.bool) = true
+          · simp [htt] at h
+          · simp only [htt, if_false] at h
+            cases hpv : projTy d dpC f ty (.bool b) with
+            | none => simp [hpv] at h
+            | some ov =>
+              rw [hB ty b _ _ ov rfl hpv]
+              cases ov with
+              | ok pv =>
+                simp only [hpv] at h
+                simp only [withRestC, mapOut, cr_after_bool cr hp id b]
+                have := hU vs _ r { cr with last := id } rest o hr hp' h
+                simpa [lastOf, withRestC, mapOut] using this
+              | err x => simp [hpv] at h; subst h; rfl
+              | panic m => simp [hpv] at h; subst h; rfl
+              | fuel => simp [hpv] at h; subst h; rfl
+      | none =>
+        simp only [hfind] at h ⊢
+        by_cases hadm : admitsB dpC (TVal.bool b).need = true
+        · simp only [hadm, if_true] at h
+          rw [cskip_bool_pending b _ rfl]
+          simp only [cr_after_bool cr hp id b]
+          have := hU vs ret r { cr with last := id } rest o hr hp' h
+          simpa [lastOf, withRestC, mapOut] using this
+        · simp [hadm] at h
+    · rw [decUnion, cfieldBegin_val cr id v r hid hbool]
+      simp only [hns, if_false]
+      cases hfind : vs.find? (fun x => x.1 == id && !(x.2 == .void)) with
+      | some p =>
+        obtain ⟨pid, ty⟩ := p
+        simp only [hfind] at h ⊢
+        by_cases hret : ret.isSome = true
+        · simp only [hret, if_true] at h ⊢
+          cases h; rfl
+        · simp only [hret, if_false] at h ⊢
+          by_cases htt : (d.ttype ty != v.ttype) = true
+          · simp [htt] at h
+          · simp only [htt, if_false] at h
+            cases hpv : projTy d dpC f ty v with
+            | none => simp [hpv] at h
+            | some ov =>
+              rw [hT ty v _ _ ov hv hp' hpv]
+              cases ov with
+              | ok pv =>
+                simp only [hpv] at h
+                simp only [withRestC, mapOut]
+                have := hU vs _ r { cr with last := id } rest o hr hp' h
+                simpa [lastOf, withRestC, mapOut] using this
+              | err x => simp [hpv] at h; subst h; rfl
+              | panic m => simp [hpv] at h; subst h; rfl
+              | fuel => simp [hpv] at h; subst h; rfl
+      | none =>
+        simp only [hfind] at h ⊢
+        by_cases hadm : admitsB dpC v.need = true
+        · simp only [hadm, if_true] at h
+          rw [cskip_enc v hv (admitsC _ hadm) _ hp']
+          have := hU vs ret r { cr with last := id } rest o hr hp' h
+          simpa [lastOf, withRestC, mapOut] using this
+        · simp [hadm] at h
+
+/-- a bool carried by the field header, decoded through any chain of typedefs -/
+theorem corrBC_succ (f : Nat) (hB : CorrBC d f) : CorrBC d (f + 1) := by
+  intro ty b cr rest o hp h
+  cases ty with
+  | bool =>
+    simp only [projTy] at h; cases h
+    rw [decTy]; simp [cmpRd, readBool, hp, mapOut, withRestC]
+  | ref n =>
+    simp only [projTy] at h
+    rw [decTy]
+    cases hfind : d.find n with
+    | none => simp [hfind] at h ⊢; subst h; rfl
+    | some df =>
+      cases df with
+      | struct fs => simp [hfind] at h
+      | union vs => simp [hfind] at h
+      | enum => simp [hfind] at h
+      | typedef t =>
+        simp only [hfind] at h ⊢
+        exact hB t b cr rest o hp h
+  | void => simp only [projTy] at h; cases h; rw [decTy]; rfl
+  | _ => simp [projTy] at h
+
+end Pilota.TGen
+
+namespace Pilota.TGen
+open Pilota Pilota.Thrift Pilota.Thrift.Compact
+
+variable (d : Doc)
+
+theorem clistBegin_enc (et : TType) (xs : TVals) (he : et.isValue = true) (hx : xs.wt et = true) (hl : xs.length < 2 ^ 31)
+    (cr : CR) (rest : Bytes) :
+    cmpRd.listBegin (cr, collHeader ((compactOf et).getD 0) xs.length ++ (encVals xs ++ rest)) =
+      .ok ((et, xs.length), (cr, encVals xs ++ rest)) := by
+  simp only [cmpRd]
+  rw [readCollBegin_hdr et he _ hl _ (by have := vals_length_le xs et hx; simp only [List.length_append]; omega)]
+  rfl
+
+theorem cmapBegin_empty (cr : CR) (rest : Bytes) :
+    cmpRd.mapBegin (cr, (0 : UInt8) :: rest) = .ok ((.stop, .stop, 0), (cr, rest)) := by
+  simp only [cmpRd]
+  rw [readMapBegin_empty]
+  rfl
+
+theorem cmapBegin_enc (kt vt : TType) (kvs : TPairs) (hk : kt.isValue = true) (hv : vt.isValue = true) (hx : kvs.wt kt vt = true)
+    (hne : kvs.length ≠ 0) (hl : kvs.length < 2 ^ 31) (cr : CR) (rest : Bytes) :
+    cmpRd.mapBegin (cr, encVar (kvs.length % 2 ^ 32) ++ (UInt8.ofNat ((compactOf kt).getD 0 * 16 + (compactOf vt).getD 0) :: (encPairs kvs ++ rest))) =
+      .ok ((kt, vt, kvs.length), (cr, encPairs kvs ++ rest)) := by
+  simp only [cmpRd]
+  rw [readMapBegin_hdr kt vt hk hv _ hne hl _ (by have := pairs_length_le kvs kt vt hx; simp only [List.length_append]; omega)]
+  rfl
+
+theorem corrTC_succ (f : Nat) (hT : CorrTC d f) (hN : CorrNC d f) (hP : CorrPC d f)
+    (hF : CorrFC d f) (hU : CorrUC d f) : CorrTC d (f + 1) := by
+  intro ty w cr rest o hw hp h
+  cases ty with
+  | list el =>
+    cases w <;> simp only [projTy] at h <;> try (cases h; done)
+    rename_i et xs
+    simp [TVal.wt] at hw
+    obtain ⟨⟨he, hl⟩, hx⟩ := hw
+    simp only [enc, List.append_assoc]
+    rw [decTy, clistBegin_enc et xs he hx hl]
+    simp only
+    cases hpn : projN d dpC f el xs [] with
+    | none => simp [hpn] at h
+    | some oy =>
+      rw [hN el xs et [] cr rest oy hx hp hpn]
+      cases oy <;> simp [hpn] at h <;> subst h <;> rfl
+  | set el =>
+    cases w <;> simp only [projTy] at h <;> try (cases h; done)
+    rename_i et xs
+    simp [TVal.wt] at hw
+    obtain ⟨⟨he, hl⟩, hx⟩ := hw
+    simp only [enc, List.append_assoc]
+    rw [decTy, clistBegin_enc et xs he hx hl]
+    simp only
+    cases hpn : projN d dpC f el xs [] with
+    | none => simp [hpn] at h
+    | some oy =>
+      rw [hN el xs et [] cr rest oy hx hp hpn]
+      cases oy <;> simp [hpn] at h <;> subst h <;> rfl
+  | map k v =>
+    cases w <;> simp only [projTy] at h <;> try (cases h; done)
+    rename_i kt vt kvs
+    simp [TVal.wt] at hw
+    obtain ⟨⟨⟨hk, hv⟩, hl⟩, hx⟩ := hw
+    cases kvs with
+    | nil =>
+      simp only [enc, TPairs.length, if_true, List.cons_append, List.nil_append]
+      rw [decTy, cmapBegin_empty]
+      simp only
+      cases f with
+      | zero => simp only [projPairs] at h; cases h; rfl
+      | succ f => simp only [projPairs] at h; cases h; simp [decPairs, withRestC, mapOut]
+    | cons k0 v0 kr =>
+      have hne : (TPairs.cons k0 v0 kr).length ≠ 0 := by simp [TPairs.length]
+      simp only [enc, hne, if_false, List.append_assoc, List.cons_append]
+      rw [decTy, cmapBegin_enc kt vt _ hk hv hx hne hl]
+      simp only
+      cases hpp : projPairs d dpC f k v (TPairs.cons k0 v0 kr) [] with
+      | none => simp [hpp] at h
+      | some oy =>
+        rw [hP k v (TPairs.cons k0 v0 kr) kt vt [] cr rest oy hx hp hpp]
+        cases oy <;> simp [hpp] at h <;> subst h <;> rfl
+  | ref n =>
+    simp only [projTy] at h
+    rw [decTy]
+    cases hfind : d.find n with
+    | none => simp [hfind] at h ⊢; subst h; rfl
+    | some df =>
+      cases df with
+      | struct fs =>
+        simp only [hfind] at h ⊢
+        cases w <;> simp only at h <;> try (cases h; done)
+        rename_i wfs
+        simp [TVal.wt] at hw
+        simp only [enc]
+        cases hpf : projFields d dpC f fs [] wfs with
+        | none => simp [hpf] at h
+        | some os =>
+          have hb : cmpRd.structBegin (cr, encFields 0 wfs ++ rest) = (readStructBegin cr, encFields (readStructBegin cr).last wfs ++ rest) := rfl
+          rw [hb, hF fs [] wfs (readStructBegin cr) rest os hw (by simp [readStructBegin, hp]) hpf]
+          cases os with
+          | ok slots =>
+            simp only [hpf] at h
+            simp only [withRestC, mapOut]
+            have hse : cmpRd.structEnd ({ readStructBegin cr with last := lastOf (readStructBegin cr).last wfs }, rest) = .ok (cr, rest) := by
+              cases cr; simp [cmpRd, readStructBegin, readStructEnd, mapOut]
+            rw [hse]
+            simp only
+            cases hfin : finish fs slots <;> simp [hfin] at h ⊢ <;> subst h <;> rfl
+          | err x => simp [hpf] at h; subst h; rfl
+          | panic m => simp [hpf] at h; subst h; rfl
+          | fuel => simp [hpf] at h; subst h; rfl
+      | union vs =>
+        simp only [hfind] at h ⊢
+        cases w <;> simp only at h <;> try (cases h; done)
+        rename_i wfs
+        simp [TVal.wt] at hw
+        simp only [enc]
+        cases hpu : projUnion d dpC f vs none wfs with
+        | none => simp [hpu] at h
+        | some os =>
+          have hb : cmpRd.structBegin (cr, encFields 0 wfs ++ rest) = (readStructBegin cr, encFields (readStructBegin cr).last wfs ++ rest) := rfl
+          rw [hb, hU vs none wfs (readStructBegin cr) rest os hw (by simp [readStructBegin, hp]) hpu]
+          cases os with
+          | ok ret =>
+            simp only [hpu] at h
+            simp only [withRestC, mapOut]
+            have hse : cmpRd.structEnd ({ readStructBegin cr with last := lastOf (readStructBegin cr).last wfs }, rest) = .ok (cr, rest) := by
+              cases cr; simp [cmpRd, readStructBegin, readStructEnd, mapOut]
+            rw [hse]
+            simp only
+            cases ret with
+            | some p => obtain ⟨id, v⟩ := p; simp at h; subst h; rfl
+            | none =>
+              simp only at h ⊢
+              split at h <;> (cases h; first | rfl | skip)
+              all_goals (split <;> simp_all [withRestC, mapOut])
+          | err x => simp [hpu] at h; subst h; rfl
+          | panic m => simp [hpu] at h; subst h; rfl
+          | fuel => simp [hpu] at h; subst h; rfl
+      | enum =>
+        simp only [hfind] at h ⊢
+        cases w <;> simp only at h <;> try (cases h; done)
+        rename_i n
+        cases h
+        have := cbase_dec d (.i32 n) .i32 hw 0 cr hp rest rfl
+        rw [decTy] at this
+        simp only [withRestC, mapOut]
+        exact this
+      | typedef t =>
+        simp only [hfind] at h ⊢
+        exact hT t w cr rest o hw hp h
+  | void => simp only [projTy] at h; cases h; rw [decTy]; rfl
+  | bool => cases w <;> simp only [projTy] at h <;> try (cases h; done)
+            cases h; exact cbase_dec d _ .bool hw f cr hp rest rfl
+  | i8 => cases w <;> simp only [projTy] at h <;> try (cases h; done)
+          cases h; exact cbase_dec d _ .i8 hw f cr hp rest rfl
+  | i16 => cases w <;> simp only [projTy] at h <;> try (cases h; done)
+           cases h; exact cbase_dec d _ .i16 hw f cr hp rest rfl
+  | i32 => cases w <;> simp only [projTy] at h <;> try (cases h; done)
+           cases h; exact cbase_dec d _ .i32 hw f cr hp rest rfl
+  | i64 => cases w <;> simp only [projTy] at h <;> try (cases h; done)
+           cases h; exact cbase_dec d _ .i64 hw f cr hp rest rfl
+  | double => cases w <;> simp only [projTy] at h <;> try (cases h; done)
+              cases h; exact cbase_dec d _ .double hw f cr hp rest rfl
+  | string => cases w <;> simp only [projTy] at h <;> try (cases h; done)
+              cases h; exact cbase_dec d _ .string hw f cr hp rest rfl
+  | binary => cases w <;> simp only [projTy] at h <;> try (cases h; done)
+              cases h; exact cbase_dec d _ .binary hw f cr hp rest rfl
+  | uuid => cases w <;> simp only [projTy] at h <;> try (cases h; done)
+            cases h; exact cbase_dec d _ .uuid hw f cr hp rest rfl
+
+theorem corrC_all : ∀ f : Nat, CorrTC d f ∧ CorrBC d f ∧ CorrNC d f ∧ CorrPC d f ∧ CorrFC d f ∧ CorrUC d f := by
+  intro f
+  induction f with
+  | zero =>
+    refine ⟨?_, ?_, ?_, ?_, ?_, ?_⟩
+    · intro ty w cr rest o _ _ h; simp only [projTy] at h; cases h; rfl
+    · intro ty b cr rest o _ h; simp only [projTy] at h; cases h; rfl
+    · intro el xs et acc cr rest o _ _ h; simp only [projN] at h; cases h; rfl
+    · intro k v kvs kt vt acc cr rest o _ _ h; simp only [projPairs] at h; cases h; rfl
+    · intro fs slots wfs cr rest o _ _ h; simp only [projFields] at h; cases h; rfl
+    · intro vs ret wfs cr rest o _ _ h; simp only [projUnion] at h; cases h; rfl
+  | succ f ih =>
+    obtain ⟨hT, hB, hN, hP, hF, hU⟩ := ih
+    exact ⟨corrTC_succ d f hT hN hP hF hU, corrBC_succ d f hB, corrNC_succ d f hT hN, corrPC_succ d f hT hP,
+      corrFC_succ d f hT hB hF, corrUC_succ d f hT hB hU⟩
 
 end Pilota.TGen
